@@ -8,7 +8,7 @@ ROOT = os.path.dirname(os.path.dirname(os.path.abspath(__file__)))
 SPEC = dict(
     id="C40",
     bin="c40",
-    cases_quick=130,        # per 10: 1 random-bytes decode, 3 structured decodes, 2 x 6 pool ops, 1 discount, 3 actions; + sizes + full byte map
+    cases_quick=70,         # per 10: 1 random-bytes decode, 3 structured decodes, 2 x 6 pool ops, 1 discount, 3 actions; + sizes + full byte map
     cases_thorough=4000,
     cases_search=200,
     shard=25,
